@@ -5,7 +5,7 @@ from .. import land
 
 LEVEL = 'fault_enumeration'
 ENGINE = 'LAND'
-TECHNIQUE = 'exhaustive enumeration of the line-level landing points of the asynchronous terminate request inside the real child (deviation bound 1), each delivered through the real terminate path with the child held at that point'
+TECHNIQUE = 'exhaustive enumeration of the line-level landing points of the asynchronous terminate request inside the real child (deviation bound 1), each delivered through the real terminate path with the child held at that point; plus the caller preempted at each line of its own terminate() and the control threads (child, backend, server) held at each of their lines while the worker ends on its own'
 LEVEL_TEXT = ('for each of the six worker classes and each target phase the base path of the child is recorded (complete landing alphabet for that path), then one real run per landing point: the child is paused at the point, the parent calls the real terminate(), the real control path posts the real async exception, the child resumes; oracle by landing site: inside the target => terminate True, dead, has_error True, result None, WorkerTerminatedError, finally blocks ran; elsewhere => the target own outcome or the WorkerTerminatedError outcome, never a third one')
 LEVEL_NOTE = 'one asynchronous request per run; quick tier collapses callee frames outside the anchored run-loop functions to their first and last line; parent-side timing is whatever the OS does while the child is held still'
 
